@@ -35,7 +35,7 @@ COMPONENTS = {
              "excel_rows", "cutplace.fields (all types)", "csv", "zipfile", "ElementTree", "xlrd"],
     "stub": ["text / ODF / XLSX peers", "SimFS/SimRaw"],
 }
-PROBES_REQUIRED = ["path-rewritten-between-two-reads", "datetime-with-time-part", "type:Decimal", "type:DateTime", "type:Integer", "type:Choice", "type:RegEx", "type:Pattern",
+PROBES_REQUIRED = ["cid-suffix-not-lower-case", "path-rewritten-between-two-reads", "datetime-with-time-part", "type:Decimal", "type:DateTime", "type:Integer", "type:Choice", "type:RegEx", "type:Pattern",
                    "type:Constant", "type:Text", "rejected-row", "check-rejection", "end-check-fails", "ellipsis-char-in-cid"]
 
 
@@ -72,9 +72,11 @@ def generate(seed, tier):
             row[index] = rng.choice([" " + row[index], row[index] + " ", "  " + row[index]]) if row[index] else row[index]
         table.append(row)
     return {"cid": spec, "table": table, "ios": [simfs.IoConfig.draw(swarm) for _ in range(3)],
-            "ods_features": sorted(swarm.sample(["colruns", "rowruns", "stored", "colstyle", "spans", "annotations"],
+            "ods_features": sorted(swarm.sample(["colruns", "rowruns", "stored", "colstyle", "spans", "annotations", "embedded-object"],
                                                 swarm.randint(0, 2))),
-            "other_table_at_same_path_first": swarm.random() < 0.3}
+            "other_table_at_same_path_first": swarm.random() < 0.3,
+            # file names are whatever the user's tools made of them: cid.ODS, cid.Xlsx
+            "suffix_case": swarm.choice(["lower", "lower", "upper", "title"])}
 
 
 def _store_rows(fs, path, storage, rows, features=()):
@@ -105,6 +107,9 @@ def execute(scenario):
     table = scenario["table"]
     features = set(scenario.get("ods_features") or ())
     suffix = {"csv": ".csv", "ods": ".ods", "xlsx": ".xlsx"}
+    if scenario.get("suffix_case", "lower") != "lower":
+        suffix = {key: value.upper() if scenario["suffix_case"] == "upper" else value.title() for key, value in suffix.items()}
+        result.probe("cid-suffix-not-lower-case")
     outcomes = {}
     ticks = 0
     violation = None
@@ -240,6 +245,8 @@ def candidates(scenario):
         yield lib.with_value(scenario, ["ods_features"], [])
     if scenario.get("other_table_at_same_path_first"):
         yield lib.with_value(scenario, ["other_table_at_same_path_first"], False)
+    if scenario.get("suffix_case", "lower") != "lower":
+        yield lib.with_value(scenario, ["suffix_case"], "lower")
     for index, field in enumerate(fields):
         if field.get("empty"):
             yield lib.with_value(scenario, ["cid", "fields", index, "empty"], False)
